@@ -14,20 +14,26 @@ import (
 )
 
 type envStep struct {
-	Op   string `json:"op"`
-	R    int32  `json:"r"`
+	Op   string          `json:"op"`
+	R    int32           `json:"r"`
 	From json.RawMessage `json:"from"`
-	Val  string `json:"val"`
-	Pol  int32  `json:"pol"`
-	Type string `json:"type"`
-	Mode string `json:"mode"`
-	K    int    `json:"k"`
+	Val  string          `json:"val"`
+	Pol  int32           `json:"pol"`
+	Type string          `json:"type"`
+	Mode string          `json:"mode"`
+	K    int             `json:"k"`
 }
 
 type envBehaviour struct {
 	Me    int       `json:"me"`
 	Byz   int       `json:"byz"`
 	Steps []envStep `json:"steps"`
+	// ReplaceVal >= 0: a transaction of the first block replaces that validator by a fresh key (in force from height 3);
+	// the former validator is addressed as validator 9 afterwards
+	ReplaceVal *int `json:"replaceval,omitempty"`
+	// TmoMs > 0: propose timeout of the engine for this schedule (multi-height schedules must deliver the proposal of
+	// the next height before the engine gives up waiting for it, also on a loaded machine)
+	TmoMs int `json:"tmo_ms,omitempty"`
 }
 
 const tmoPropose = 600 * time.Millisecond
@@ -73,7 +79,11 @@ func finalized(cl *Cluster) bool {
 
 // runEnv executes one environment schedule against one real engine and returns the recorded events.
 func runEnv(b envBehaviour, rnd *rand.Rand) ([]Event, string) {
-	cl := NewCluster(4, []int{b.Me}, tmoPropose)
+	tmo := tmoPropose
+	if b.TmoMs > 0 {
+		tmo = time.Duration(b.TmoMs) * time.Millisecond
+	}
+	cl := NewCluster(4, []int{b.Me}, tmo)
 	defer cl.Close()
 	blocks := map[string]*Block{}
 	for i := 0; i < 4; i++ {
@@ -82,6 +92,17 @@ func runEnv(b envBehaviour, rnd *rand.Rand) ([]Event, string) {
 		}
 	}
 	e := cl.Engines[b.Me]
+	if b.ReplaceVal != nil {
+		if err := cl.ReplaceValidator(*b.ReplaceVal); err != nil {
+			return cl.Rec.Events(), "replace validator: " + err.Error()
+		}
+		// blocks fabricated before the transaction was in the pools do not carry it: fabricate again
+		for i := 0; i < 4; i++ {
+			if i != b.Me {
+				blocks[fmt.Sprintf("B%d", i)] = cl.Fabricate(i, fmt.Sprintf("B%d", i))
+			}
+		}
+	}
 	cl.Rec.Add(Event{"ev": "init", "node": e.name, "me": b.Me, "h": 1})
 	// a power loss may hit the very first actions of the engine (a proposer proposes from Start): a schedule that
 	// begins with a crash operation arms it BEFORE the engine starts
@@ -202,13 +223,23 @@ func runEnv(b envBehaviour, rnd *rand.Rand) ([]Event, string) {
 				}
 				s, f, h := s, f, cl.Height
 				bs := cl.VoteBytes(f, vtOf(s.Type), s.R, blk, 1000+int64(s.R))
+				_, member := cl.signer(f)
 				deliver := func() {
-					cl.RecvEvent(e, f, "vote", Event{"type": s.Type, "r": s.R, "val": name, "h": h})
-					_ = e.Inject(f, consensus.ProtoVote, bs)
+					ev := Event{"type": s.Type, "r": s.R, "val": name, "h": h}
+					if !member {
+						ev["nonval"] = true // signed by a key that is not in the validator set of this height
+					}
+					cl.RecvEvent(e, f, "vote", ev)
+					_ = e.InjectFrom(cl.peerOf(f), consensus.ProtoVote, bs)
 				}
 				deliver()
 				delivered = append(delivered, redo{h, deliver})
 			}
+		case "holdimport":
+			e.HoldImports()
+			continue
+		case "releaseimport":
+			e.ReleaseImports()
 		case "redeliver":
 			// the peers gossip again what they sent at this height (an engine that lost its memory in a restart is
 			// stimulated again with the same, identical messages)
@@ -306,7 +337,7 @@ func TraceLines(id string, evs []Event, node string, names *Names) []Event {
 			}
 			switch e["ev"] {
 			case "recv":
-				if e["kind"] == "vote" {
+				if e["kind"] == "vote" && e["nonval"] != true {
 					out = append(out, Event{"ev": "recv", "seq": e["seq"], "from": e["from"], "type": e["type"], "r": e["r"], "val": e["val"]})
 				}
 			case "send":
